@@ -59,6 +59,25 @@ let vnat n = I (int_of_nat n)
 let vbool b = I (if b then 1 else 0)
 let vlist f l = L (List.map f l)
 
+(* ---------- IEEE double reading of the arithmetic record ---------- *)
+let fops : float ops = {
+  o0 = 0.0; o1 = 1.0;
+  oadd = (fun a b -> a +. b); omul = (fun a b -> a *. b); osub = (fun a b -> a -. b); odiv = (fun a b -> a /. b);
+  omax0 = (fun a -> if a > 0.0 then a else 0.0);        (* torch.clamp(x, min=0): NaN propagates in torch; not exercised *)
+  osqrt = sqrt; oabs = abs_float; omin = (fun a b -> if b < a then b else a);
+  oeq0 = (fun a -> a = 0.0);
+  oofnat = (fun n -> float_of_int (int_of_nat n)) }
+let getf = function S s -> float_of_string s | I i -> float_of_int i | _ -> failwith "float expected"
+let vf (x : float) = S (Printf.sprintf "%h" x)
+let mat_of v : nat -> nat -> float =
+  let a = Array.of_list (List.map (fun r -> Array.of_list (List.map getf (getl r))) (getl v)) in
+  fun i j -> let i = int_of_nat i and j = int_of_nat j in
+    if i < Array.length a && j < Array.length a.(i) then a.(i).(j) else 0.0
+let vec_of v : nat -> float =
+  let a = Array.of_list (List.map getf (getl v)) in
+  fun i -> let i = int_of_nat i in if i < Array.length a then a.(i) else 0.0
+let vmat m n (a : nat -> nat -> float) = vlist (vlist vf) (to_list (nat_of_int m) (nat_of_int n) a)
+
 (* ---------- commands ---------- *)
 let run (cmd : string) (a : v) : v =
   match cmd, a with
@@ -185,6 +204,13 @@ let run (cmd : string) (a : v) : v =
       (match global_order members logs with
        | None -> I 0
        | Some l -> L [I 1; vnat (length l)])
+  | "pre_inverse", L [I m; I n; ginv; ainv; d] ->
+      vmat m n (pre_inverse fops (nat_of_int m) (nat_of_int n) (mat_of ginv) (mat_of ainv) (mat_of d))
+  | "pre_eigen", L [I m; I n; qg; dg; qa; da; lam; d] ->
+      vmat m n (pre_eigen fops (nat_of_int m) (nat_of_int n) (mat_of qg) (clamp fops (vec_of dg)) (mat_of qa) (clamp fops (vec_of da)) (getf lam) (mat_of d))
+  | "pre_eigen_prediv", L [I m; I n; qg; dg; qa; da; lam0; d] ->
+      vmat m n (pre_eigen_prediv fops (nat_of_int m) (nat_of_int n) (mat_of qg) (mat_of qa)
+                  (dgda_of fops (clamp fops (vec_of dg)) (clamp fops (vec_of da)) (getf lam0)) (mat_of d))
   | _ -> failwith ("unknown command or bad argument: " ^ cmd)
 
 let () =
